@@ -1,3 +1,5 @@
 import Audit.Tool
 import Adb.Props.C14
+import Adb.Props.C01Tokens
 #audit_module Adb.Props.C14
+#audit_module Adb.Props.C01Tokens
